@@ -214,7 +214,7 @@ LEVEL_TEXT = ("Theorems in coq/theories/Properties/C11.v over the model of Build
               "any type 1..4, flags, serial, both byte orders), every body byte string, signature and fd count within the size limits, "
               "the built bytes equal the D-Bus layout formula of C11/Spec.v, re-parse to the same header, signature and body bytes, "
               "the body offset is a multiple of 8, the declared body length and UNIX_FDS equal the actual ones; typed round trip for "
-              "the body shapes s, u, (su). Tied to the code by differential runs through the public Builder API and Message::from_bytes.")
+              "the body shapes s, u, (su), as. Tied to the code by differential runs through the public Builder API and Message::from_bytes.")
 LEVEL_NOTE = ("Trusted: Coq kernel; the hand-written model (absolute-position reading of zvariant's D-Bus (de)serializer for the header "
               "types y u s o g v a(yv)); body values other than the listed shapes are opaque bytes + signature (general codec: C01-C03); "
               "the body signature is preserved as the D-Bus list of complete types (a one-field structure and its field are the same "
